@@ -151,7 +151,8 @@ def run(ctx):
         dist['life_histories'] += 1
     ex = P.run_property(ctx, EXEC_MASK, exec_monitor, 'dependency', [
         ('G-exec', 150, 3000, dict(p_bad=0.5)),
-        ('G-exec-deps', 80, 1500, dict(p_bad=1.0, bad_kinds=['asg-parent', 'asg-order', 'asg-busy']))])
+        ('G-exec-deps', 80, 1500, dict(p_bad=1.0, bad_kinds=['asg-parent', 'asg-order', 'asg-busy'])),
+        ('G-exec-inflight', 80, 1500, dict(p_inflight=0.9, p_bad=0.0))])
     cases += ex['cases']
     hits += ex['hits']
     dist['executor'] = ex['dist']
